@@ -211,7 +211,7 @@ macro_rules! c33_segment_fits {
         #[kani::stub(InnerHeap::grow, grow_fail)]
         fn $name() {
             const L: usize = $L;
-            const NEED: usize = L / 8 + 2; // cells: string + padding (+1 when L%8==7) + tail
+            const NEED: usize = L / 8 + 3; // cells: string (+1 when L%8==7) + tail, rounded up
             let len: usize = kani::any();
             kani::assume(len <= 2);
             let mut heap = mk_heap(NEED + 2, len);
